@@ -2,6 +2,8 @@
 META = dict(level='proof', level_text='wip', level_note='wip', trusted_base=[], assumptions=[], not_covered=[])
 # constant-trip (rank-1) helper loops of hybrid_ndarray<size_t,8,1>
 HYB = {'hybrid_ndarray.*resize': 3, 'detail_init_': 3}
+# flip_slices for a compile-time rank 3: `for i < dim` has the constant trip count 3
+FLIP = {'flip_slices__rintegral_constant_i_3': 4}
 UNITS = [
     Unit('normalize_axis.bp', 'c03', 'verif_normalize_axis', mode='bp', unwind=10, clause='axis arguments: valid iff -ndim <= axis < ndim, value axis mod ndim'),
     Unit('normalize_axes.bp', 'c03', 'verif_normalize_axes', mode='bp', unwind=10, clause='axis lists: valid iff every entry is; entries normalised'),
@@ -30,4 +32,7 @@ UNITS = [
     Unit('moveaxis_to_transpose.bp', 'c03', 'verif_moveaxis_to_transpose', mode='bp', unwind=10,
          unwind_loops={'moveaxis_to_transpose__rstatic_vector_ul_8_ri_ri': 2, 'argsort__rarr_ul_1': 3, 'normalize_axis__rarr_i_1': 3, 'lambda_moveaxis_to_transpose_2': 3},
          clause='moveaxis (scalar axes) = transpose with numpy\'s moveaxis permutation'),
+    Unit('flip_slices3.bp', 'c03', 'verif_flip_slices3', mode='bp', unwind=10, unwind_loops=FLIP, clause='flip(axis): step -1 exactly on axis mod ndim (rank 3)'),
+    Unit('flip_slices3_axes.bp', 'c03', 'verif_flip_slices3_axes', mode='bp', unwind=10, unwind_loops=FLIP, clause='flip(axes): step -1 exactly on the listed axes mod ndim (rank 3)'),
+    Unit('flip_slices3_none.bp', 'c03', 'verif_flip_slices3_none', mode='bp', unwind=10, unwind_loops=FLIP, clause='flip(None): every axis reversed (rank 3)'),
 ]
